@@ -10,6 +10,7 @@ source's *decode* sequence, re-encoding uses its *encode* sequence.
 -/
 import Brc20.Model.CodecRecords
 import Brc20.Model.Gas
+import Brc20.Model.Forks
 
 namespace Brc20.DriverC
 
@@ -49,6 +50,11 @@ def step (line : String) : String :=
     match hexToBytes hex with
     | some bs => decodeLine name bs
     | none => "bad-hex"
+  | ["fork", net, h] =>
+    -- activation heights pinned to Gen by Props/C19 (`C19.fork_heights_pinned`); `-` stands for the empty name
+    let nt := Forks.netOf (if net == "-" then "" else net)
+    (if Forks.prague 923369 275000 nt h.toNat! then "PRAGUE" else "CANCUN") ++ " " ++
+      toString (Forks.rlpHash 929000 0 nt h.toNat!)
   | ["gas", n] =>
     -- `get_gas_limit` / `get_inscription_byte_len` with GAS_PER_BYTE = 12000 (pinned to Gen by Props/C16)
     toString (Gas.gasLimit 12000 n.toNat!) ++ " " ++ toString (Gas.byteLenOf 12000 n.toNat!)
